@@ -260,10 +260,10 @@ def run_stream(exe, drv_mode, hargs, dargs, timeout, tagfile):
             hrc, herr = -9, "harness timeout after %ss" % timeout
     th = time.time() - t0
     text = Path(tagfile).read_text(errors="replace")
-    drv = LEAN / ".lake" / "build" / "bin" / "driver"
+    drv = LEAN / ".lake" / "build" / "bin" / ("driver_" + drv_mode)
     t1 = time.time()
     with open(tagfile) as inp:
-        dp = subprocess.run([str(drv), drv_mode] + dargs, stdin=inp, stdout=subprocess.PIPE,
+        dp = subprocess.run([str(drv)] + dargs, stdin=inp, stdout=subprocess.PIPE,
                             stderr=subprocess.PIPE, text=True)
     td = time.time() - t1
     return dict(hrc=hrc, herr=herr, text=text, drc=dp.returncode, dout=dp.stdout, derr=dp.stderr,
@@ -309,13 +309,14 @@ def main():
     modules = list(getattr(P, "LEAN_MODULES", []))
     thms, axioms = [], {}
     if not a.no_lean:
-        ok, out = lake_build(modules + ["driver"])
+        drvt = "driver_" + P.DRIVER_MODE
+        ok, out = lake_build(modules + [drvt])
         if not ok:
             # which module failed?
             failed = re.findall(r"error: .*?([A-Za-z0-9_/.]+\.lean):(\d+):\d+: (.*)", out)
             broken.append(("proof", "lake build " + " ".join(modules),
                            "\n".join("%s:%s %s" % f for f in failed[:10]) or out[-2000:]))
-            okd, outd = lake_build(["driver"])
+            okd, outd = lake_build([drvt])
             if not okd:
                 print(outd[-3000:], file=sys.stderr)
         else:
